@@ -73,6 +73,7 @@ func HExported() *Harness {
 		Doc:     "template func Exported(s) == reference (initialism ⇒ upper-case whole name, else upper-case first letter), no slice-bound failure",
 		Funcs:   []string{"internal/template.init$1 … (closure templateFuncs[\"Exported\"])"},
 		Outside: []string{"names longer than the bound", "non-ASCII names (Exported slices the first byte; SMT strings are code points)"},
+		Confirm: exportedConfirm,
 	}
 	hh.Instances = func(env *Env) []Instance {
 		bound := 6
@@ -82,8 +83,8 @@ func HExported() *Harness {
 		hh.Bounds = []string{fmt.Sprintf("|s| ≤ %d, s ∈ printable ASCII", bound)}
 		mk := func(name, re string) Instance {
 			return Instance{Name: name, Run: func(ic *IC) *exec.Stats {
-				ic.W.StrBound = bound
-				return ic.W.Explore(func(ex *exec.Exec) {
+				ic.StrBound = bound
+				return ic.Explore(func(ex *exec.Exec) {
 					c := ex.C
 					s := c.Var("s", smt.String)
 					ex.AssumeNoCheck(c.Le(c.Len(s), c.IntC(int64(bound))))
@@ -92,9 +93,7 @@ func HExported() *Harness {
 					got := ex.CallValue(f, []exec.Value{s}).(*smt.Term)
 					ic.Witness(ex, nil)
 					want := refExported(ex, s, bound)
-					if !ex.Oblige(c.Eq(got, want), "Exported(s) equals the reference rule") {
-						ic.exportedViolation(ex, got, want, s)
-					}
+					ex.Oblige(c.Eq(got, want), "C13: Exported(s) equals the reference rule")
 				})
 			}}
 		}
@@ -106,14 +105,9 @@ func HExported() *Harness {
 	return hh
 }
 
-func (ic *IC) exportedViolation(ex *exec.Exec, got, want, s *smt.Term) {
-	m := ex.ModelOf(ex.C.Not(ex.C.Eq(got, want)))
-	if m["$status"] != "" {
-		return
-	}
-	in := m["s"]
-	v := Violation{Property: "C13", Harness: ic.H.ID, Instance: ic.Name, Label: "Exported(s) differs from the reference rule", Model: m,
-		Key: "exported:" + in}
+func exportedConfirm(ic *IC, ob *exec.Obligation) *Violation {
+	in := ob.Model["s"]
+	v := &Violation{Property: "C13", Harness: ic.H.ID, Instance: ic.Name, Label: ob.Label, Model: ob.Model, Key: "exported:" + in}
 	want2 := goRefExported(in)
 	src := fmt.Sprintf(`package template
 import "testing"
@@ -123,8 +117,8 @@ func TestZZReplay(t *testing.T) {
 	if got != %q { t.Fatalf("REPRODUCED Exported(%%q) = %%q, reference says %%q", %q, got, %q) }
 }
 `, in, want2, in, want2)
-	ic.replayUnit(&v, "internal/template", src)
-	ic.Viol = append(ic.Viol, v)
+	ic.replayUnit(v, "internal/template", src)
+	return v
 }
 
 // goRefExported is the same reference rule in Go (used to build replays).
@@ -148,11 +142,28 @@ func HPairName() *Harness {
 		Doc:    "parseInterfaceName(np): no ':' ⇒ (np, np+\"Mock\"); else (before first ':', everything after it); never panics",
 		Funcs:  []string{"pkg/moq.parseInterfaceName"},
 		Bounds: []string{"np: any string (no length bound; SplitN encoded with str.indexof)"},
+		Confirm: func(ic *IC, ob *exec.Obligation) *Violation {
+			in := ob.Model["np"]
+			wi, wm := in, in+"Mock"
+			if k := strings.Index(in, ":"); k >= 0 {
+				wi, wm = in[:k], in[k+1:]
+			}
+			v := &Violation{Property: "C20", Harness: ic.H.ID, Instance: ic.Name, Label: ob.Label, Model: ob.Model, Key: "pairname:" + in}
+			src := fmt.Sprintf(`package moq
+import "testing"
+func TestZZReplay(t *testing.T) {
+	a, b := parseInterfaceName(%q)
+	if a != %q || b != %q { t.Fatalf("REPRODUCED parseInterfaceName(%%q) = (%%q, %%q), want (%%q, %%q)", %q, a, b, %q, %q) }
+}
+`, in, wi, wm, in, wi, wm)
+			ic.replayUnit(v, "pkg/moq", src)
+			return v
+		},
 	}
 	hh.Instances = func(env *Env) []Instance {
 		return []Instance{{Name: "any-string", Run: func(ic *IC) *exec.Stats {
 			fn := env.Repo.Fn(pkgMoq, "parseInterfaceName")
-			return ic.W.Explore(func(ex *exec.Exec) {
+			return ic.Explore(func(ex *exec.Exec) {
 				c := ex.C
 				np := c.Var("np", smt.String)
 				r := ex.CallFn(fn, []exec.Value{np}, nil).(exec.Tuple)
@@ -163,24 +174,7 @@ func HPairName() *Harness {
 				has := c.Contains(np, colon)
 				wantI := c.Ite(has, c.Substr(np, c.IntC(0), idx), np)
 				wantM := c.Ite(has, c.Substr(np, c.Add(idx, c.IntC(1)), c.Len(np)), c.Concat(np, c.StrC("Mock")))
-				if !ex.Oblige(c.And(c.Eq(iface, wantI), c.Eq(mock, wantM)), "parseInterfaceName matches the documented rule") {
-					m := ex.ModelOf(c.Not(c.And(c.Eq(iface, wantI), c.Eq(mock, wantM))))
-					in := m["np"]
-					wi, wm := in, in+"Mock"
-					if k := strings.Index(in, ":"); k >= 0 {
-						wi, wm = in[:k], in[k+1:]
-					}
-					v := Violation{Property: "C20", Harness: hh.ID, Instance: ic.Name, Label: "parseInterfaceName differs from the rule", Model: m, Key: "pairname:" + in}
-					src := fmt.Sprintf(`package moq
-import "testing"
-func TestZZReplay(t *testing.T) {
-	a, b := parseInterfaceName(%q)
-	if a != %q || b != %q { t.Fatalf("REPRODUCED parseInterfaceName(%%q) = (%%q, %%q), want (%%q, %%q)", %q, a, b, %q, %q) }
-}
-`, in, wi, wm, in, wi, wm)
-					ic.replayUnit(&v, "pkg/moq", src)
-					ic.Viol = append(ic.Viol, v)
-				}
+				ex.Oblige(c.And(c.Eq(iface, wantI), c.Eq(mock, wantM)), "C20: parseInterfaceName matches the documented rule")
 			})
 		}}}
 	}
